@@ -111,6 +111,7 @@ func (c17) Plan(tier string) []fw.Unit {
 	us = append(us, fw.Unit{Check: "C17", Kind: "same-predicate", Tier: tier, Spec: fw.Spec(enumSpec{})})
 	us = append(us, fw.Unit{Check: "C17", Kind: "text-aggregates", Tier: tier, Spec: fw.Spec(enumSpec{})})
 	us = append(us, fw.Unit{Check: "C17", Kind: "trigger-literal", Tier: tier, Spec: fw.Spec(enumSpec{})})
+	us = append(us, fw.Unit{Check: "C17", Kind: "two-column-trigger", Tier: tier, Spec: fw.Spec(enumSpec{})})
 	// strategy block without a timeout, a window output buffer of one result, a sink taking 20 ms per batch, rows fed
 	// back to back: the window must wait for its consumer (predicates count(*) >= 1 and count(*) >= 2)
 	us = append(us, fw.Unit{Check: "C17", Kind: "block", Tier: tier, Spec: fw.Spec(enumSpec{Cfg: 0})}, fw.Unit{Check: "C17", Kind: "block", Tier: tier, Spec: fw.Spec(enumSpec{Cfg: 1})})
@@ -530,6 +531,9 @@ func (c17) Run(u fw.Unit) fw.Result {
 	}
 	if u.Kind == "same-predicate" {
 		return c17SamePredicate()
+	}
+	if u.Kind == "two-column-trigger" {
+		return twoColumnTriggerUnit("C17", "det-global-two-column-trigger")
 	}
 	if u.Kind == "trigger-literal" {
 		return triggerLiteralUnit("C17", "det-global-trigger-literal")
